@@ -286,6 +286,30 @@ def check_tokens(acc, pendulum, z, f, loc, pairs=False):
 DEFAULT_LOCALES = ("fr", "ru")
 
 
+COMPOSITIONS = {"to_day_datetime_string": "ddd, MMM D, YYYY h:mm A", "to_atom_string": "YYYY-MM-DDTHH:mm:ssZ", "to_w3c_string": "YYYY-MM-DDTHH:mm:ssZ",
+                "to_cookie_string": "dddd, DD-MMM-YYYY HH:mm:ss zz", "to_rfc822_string": "ddd, DD MMM YY HH:mm:ss ZZ",
+                "to_rfc850_string": "dddd, DD-MMM-YY HH:mm:ss zz", "to_rfc1036_string": "ddd, DD MMM YY HH:mm:ss ZZ",
+                "to_rfc1123_string": "ddd, DD MMM YYYY HH:mm:ss ZZ", "to_rfc2822_string": "ddd, DD MMM YYYY HH:mm:ss ZZ",
+                "to_rss_string": "ddd, DD MMM YYYY HH:mm:ss ZZ", "to_date_string": "YYYY-MM-DD", "to_time_string": "HH:mm:ss",
+                "to_datetime_string": "YYYY-MM-DD HH:mm:ss", "to_formatted_date_string": "MMM DD, YYYY"}
+
+
+def check_compositions_lmt(acc, pendulum):
+    """The named helpers ARE their documented format() compositions - also where the zone's offset carries seconds (local mean
+    time eras), which the token-level oracle leaves out: helper() == format(<its composition>, locale='en')."""
+    for zn, f in (("Europe/Paris", (1900, 6, 15, 12, 0, 0, 0)), ("Africa/Monrovia", (1960, 2, 3, 4, 5, 6, 7)), ("America/New_York", (1880, 12, 31, 23, 59, 59, 999999)),
+                  ("Asia/Tokyo", (1800, 1, 5, 8, 9, 10, 0)), ("Europe/Amsterdam", (1930, 7, 1, 0, 0, 0, 0)), ("Asia/Kolkata", (2024, 5, 5, 5, 5, 5, 5))):
+        x = pendulum.DateTime.create(*f, tz=pendulum.timezone(zn))
+        for name, fmt in COMPOSITIONS.items():
+            acc.c["evaluations"] += 1
+            try:
+                got, want = getattr(x, name)(), x.format(fmt, locale="en")
+            except Exception as e:  # noqa: BLE001
+                got, want = f"raises {type(e).__name__}", "a string"
+            if got != want:
+                acc.mismatch("named", f"{name}/composition", {"kind": "def", "text": zn, "fmt": name}, got, want)
+
+
 def check_named(acc, pendulum, z, f):
     x, nat, inst, zname = mk(pendulum, z, f)
     case = {"kind": "named", "z": z, "f": list(f)}
@@ -470,6 +494,7 @@ def check_defaults(acc, pendulum):
         exp = list(want) if want else [12 if "PM" in text else 0]
         if got != exp:
             acc.mismatch("from_format", "day-of-year" if want else "meridiem-12", {"kind": "def", "text": text, "fmt": fmt}, got, exp)
+    check_compositions_lmt(acc, pendulum)
     # a REJECTED default locale leaves the accepted one in force for format() / from_format()
     x = pendulum.datetime(2016, 8, 28, 7, 3, 6, 123456)
     for bad in ("tlh", "xx_yy", "e n"):
